@@ -59,35 +59,38 @@ def parseNewlineOption (T : PTables) (buf : Buf) (skip : Bool) : M Buf := do
 structure Args where
   args : List (List Tok) := []
   extr : List (List Tok) := []
+  /-- language tokens skipped while looking for arguments (re-inserted behind the macro) -/
+  langs : List Tok := []
 deriving Repr, Inhabited
 
 def collectArgs (T : PTables) (mac : MacroDef) : List Char → Nat → Buf → Nat → Args → M (Args × Buf)
   | [], _, buf, _, acc => pure (acc, buf)
-  | code :: codes, n, buf, pos0, acc => do
-    let buf := skipSpace buf
+  | code :: codes, n, buf0, pos0, acc0 => do
+    let acc : Args := { acc0 with langs := acc0.langs ++ skippedLangs buf0 }
+    let buf := skipSpace buf0
     let tok := buf.head?
     let pos := match tok with | some t => t.pos | none => pos0
     if code == '*' then
       match tok with
       | some t =>
-        if txtIs t "*" then collectArgs T mac codes (n + 1) buf.tail pos { args := acc.args ++ [[t]], extr := acc.extr ++ [[t]] }
-        else collectArgs T mac codes (n + 1) buf pos { args := acc.args ++ [[]], extr := acc.extr ++ [[]] }
-      | none => collectArgs T mac codes (n + 1) buf pos { args := acc.args ++ [[]], extr := acc.extr ++ [[]] }
+        if txtIs t "*" then collectArgs T mac codes (n + 1) buf.tail pos { acc with args := acc.args ++ [[t]], extr := acc.extr ++ [[t]] }
+        else collectArgs T mac codes (n + 1) buf pos { acc with args := acc.args ++ [[]], extr := acc.extr ++ [[]] }
+      | none => collectArgs T mac codes (n + 1) buf pos { acc with args := acc.args ++ [[]], extr := acc.extr ++ [[]] }
     else if code == 'O' then
       if (match tok with | some t => txtIs t "[" | none => false) then do
         let r ← argBuffer T.toTables buf pos false
-        collectArgs T mac codes (n + 1) r.2 pos { args := acc.args ++ [r.1], extr := acc.extr ++ [r.1] }
+        collectArgs T mac codes (n + 1) r.2 pos { acc with args := acc.args ++ [r.1], extr := acc.extr ++ [r.1] }
       else
         let dflt := match mac.defaults[n]? with
           | some d => d.map (fun t => { t with pos := pos0, fix := true })
           | none => []
-        collectArgs T mac codes (n + 1) buf pos { args := acc.args ++ [dflt], extr := acc.extr ++ [[]] }
+        collectArgs T mac codes (n + 1) buf pos { acc with args := acc.args ++ [dflt], extr := acc.extr ++ [[]] }
     else if code == 'A' then
       if (match tok with | some t => txtIs t "}" | none => false) then
-        collectArgs T mac codes (n + 1) buf pos { args := acc.args ++ [[mkVoid pos]], extr := acc.extr ++ [[mkVoid pos]] }
+        collectArgs T mac codes (n + 1) buf pos { acc with args := acc.args ++ [[mkVoid pos]], extr := acc.extr ++ [[mkVoid pos]] }
       else do
         let r ← argBuffer T.toTables buf pos true
-        collectArgs T mac codes (n + 1) r.2 pos { args := acc.args ++ [r.1], extr := acc.extr ++ [r.1] }
+        collectArgs T mac codes (n + 1) r.2 pos { acc with args := acc.args ++ [r.1], extr := acc.extr ++ [r.1] }
     else fatal ("illegal arg code".toList)
 
 /-- `parse_def_macro` (buffer is positioned after `\def`) -/
@@ -534,7 +537,7 @@ def endEnvironment (T : PTables) : Nat → Buf → Tok → Option Str → M ((Li
 def expandMacro (T : PTables) : Nat → Buf → Tok → Bool → M (List Tok × Buf)
   | 0, _, _, _ => outOfFuel
   | fuel + 1, buf, tok, math => do
-    let buf := skipSpace buf
+    let buf := skipSpaceStopLang buf
     let st ← get
     match lookupMacro st tok.txt with
     | none => do
@@ -555,11 +558,11 @@ def expandArguments (T : PTables) : Nat → Buf → MacroDef → Nat → M (List
         modify (fun s => { s with extracted := s.extracted ++ [e.1], foreign := s.foreign || s.nest != 1 })
     if mac.handler != .none then do
       let h ← callHandler T fuel mac.handler r.2 mac r.1.args start
-      pure (mkAction start :: h, r.2)
+      pure (mkAction start :: h ++ r.1.langs, r.2)
     else
       match generateReplacements r.1.args mac.repl start with
       | none => crash "parser.py:generate_replacements:arguments[tok.arg-1]"
-      | some g => pure (mkAction start :: g, r.2)
+      | some g => pure (mkAction start :: g ++ r.1.langs, r.2)
 
 /-- `expand_item` (buffer positioned after `\item`) -/
 def expandItem (T : PTables) : Nat → Buf → Tok → List Tok → M (List Tok × Buf)
@@ -569,7 +572,7 @@ def expandItem (T : PTables) : Nat → Buf → Tok → List Tok → M (List Tok 
     let itemMac : MacroDef := { name := sItem, args := ['O'], repl := [{ kind := .arg 1, pos := 0, txt := "#1".toList }] }
     let r ← expandArguments T fuel buf itemMac start
     let sp (p : Nat) : Tok := mkFix .space p [' ']
-    if r.1.length == 1 then do
+    if r.1.all (fun t => t.kind == .action || isLangK t) then do
       let st ← get
       match st.itemStack with
       | [] => crash "parser.py:expand_item:item_lab_stack[-1]"
